@@ -49,11 +49,31 @@ pub struct GasMonitor {
     expect: Option<Stages>,
     pub oog_in_multistage: bool,
     pub nested_return_with_unspent: bool,
+    /// Own model of "this slot was already accessed in this transaction" (value length as last
+    /// seen): a read is hot exactly when the slot is in here. Independent of the VM's cache.
+    touched: std::collections::BTreeMap<(ContractId, [u8; 32]), Option<usize>>,
+    /// Slots the instruction being stepped will touch, applied when it completes.
+    pending: std::cell::RefCell<Vec<([u8; 32], Option<usize>)>>,
+    pending_cid: std::cell::Cell<Option<ContractId>>,
+    /// Set when an instruction's slot accesses could not be modelled: from then on hotness is
+    /// read from the VM's own cache (the charge is still checked against the schedule).
+    degraded: std::cell::Cell<bool>,
+    pub hot_after_clear: std::cell::Cell<bool>,
 }
 
 impl GasMonitor {
     pub fn new(costs: GasCosts) -> Self {
-        GasMonitor { costs, expect: None, oog_in_multistage: false, nested_return_with_unspent: false }
+        GasMonitor {
+            costs,
+            expect: None,
+            oog_in_multistage: false,
+            nested_return_with_unspent: false,
+            touched: Default::default(),
+            pending: Default::default(),
+            pending_cid: Default::default(),
+            degraded: Default::default(),
+            hot_after_clear: Default::default(),
+        }
     }
 
     fn fixed(&self, op: O) -> Option<u64> {
@@ -152,11 +172,19 @@ impl GasMonitor {
         if let Some(v) = cache.get(key) {
             return (true, *v);
         }
-        let real = vm.bench_storage_slot_cache().get(&(*cid, Bytes32::new(*key)));
-        if let Some(v) = real {
-            let l = v.as_ref().map(|d| d.len());
-            cache.insert(*key, l);
-            return (true, l);
+        if self.degraded.get() {
+            let real = vm.bench_storage_slot_cache().get(&(*cid, Bytes32::new(*key)));
+            if let Some(v) = real {
+                let l = v.as_ref().map(|d| d.len());
+                cache.insert(*key, l);
+                return (true, l);
+            }
+        } else if let Some(l) = self.touched.get(&(*cid, *key)) {
+            if l.is_none() {
+                self.hot_after_clear.set(true);
+            }
+            cache.insert(*key, *l);
+            return (true, *l);
         }
         let len = vm.as_ref().inner.contract_state(cid, &Bytes32::new(*key)).ok().flatten().map(|d| d.as_ref().as_ref().len());
         cache.insert(*key, len);
@@ -301,6 +329,10 @@ impl GasMonitor {
                 let (hot, cold, write, clear) = (c.storage_read_hot().ok()?, c.storage_read_cold().ok()?, c.storage_write().ok()?, c.storage_clear().ok()?);
                 let nsb = c.new_storage_per_byte();
                 let mut cache = std::collections::BTreeMap::new();
+                let stash = |cache: std::collections::BTreeMap<[u8; 32], Option<usize>>| {
+                    self.pending_cid.set(Some(cid));
+                    *self.pending.borrow_mut() = cache.into_iter().collect();
+                };
                 let mut read = |v: &mut Vec<u64>, cache: &mut std::collections::BTreeMap<[u8; 32], Option<usize>>, k: &[u8; 32]| -> Option<usize> {
                     let (is_hot, len) = self.slot(vm, &cid, k, cache);
                     v.push(resolve(if is_hot { hot } else { cold }, len.unwrap_or(0) as u64));
@@ -328,74 +360,85 @@ impl GasMonitor {
                 match op {
                     O::SRW | O::SRDD | O::SRDI | O::SPLD => {
                         read(&mut v, &mut cache, &key);
-                        done(v)
+                        { stash(cache); done(v) }
                     }
                     O::SRWQ => {
                         let n = r(d.d);
                         if n > 64 {
-                            return partial(v);
+                            { self.degraded.set(true); return partial(v) }
                         }
                         for i in 0..n {
                             let Some(k) = key_at(i) else { return partial(v) };
                             read(&mut v, &mut cache, &k);
                         }
-                        done(v)
+                        { stash(cache); done(v) }
                     }
                     O::SWW => {
                         read(&mut v, &mut cache, &key);
                         wr(&mut v, &mut cache, &key, 32);
-                        done(v)
+                        { stash(cache); done(v) }
                     }
                     O::SWWQ => {
                         let n = r(d.d);
                         if n > 64 {
-                            return partial(v);
+                            { self.degraded.set(true); return partial(v) }
                         }
                         for i in 0..n {
                             let Some(k) = key_at(i) else { return partial(v) };
                             read(&mut v, &mut cache, &k);
                             wr(&mut v, &mut cache, &k, 32);
                         }
-                        done(v)
+                        { stash(cache); done(v) }
                     }
                     O::SCWQ => {
                         let n = r(d.c);
                         if n > 64 {
-                            return partial(v);
+                            { self.degraded.set(true); return partial(v) }
                         }
                         for i in 0..n {
                             let Some(k) = key_at(i) else { return partial(v) };
                             read(&mut v, &mut cache, &k);
+                            cache.insert(k, None);
                         }
                         v.push(resolve(clear, n));
-                        done(v)
+                        { stash(cache); done(v) }
                     }
                     O::SCLR => {
                         let n = r(d.b);
                         if n > 1 && key_at(n - 1).is_none() {
                             return partial(v);
                         }
+                        if n > 4096 {
+                            self.degraded.set(true);
+                        } else {
+                            // every slot of a cleared range is "known absent" afterwards
+                            for i in 0..n {
+                                if let Some(k) = key_at(i) {
+                                    cache.insert(k, None);
+                                }
+                            }
+                        }
                         v.push(resolve(clear, n));
-                        done(v)
+                        { stash(cache); done(v) }
                     }
                     O::SWRD | O::SWRI => {
                         let len = if op == O::SWRD { r(d.c) } else { d.imm12 as u64 };
                         if len > (1 << 20) {
-                            return partial(v);
+                            { self.degraded.set(true); return partial(v) }
                         }
                         wr(&mut v, &mut cache, &key, len as usize);
-                        done(v)
+                        { stash(cache); done(v) }
                     }
                     O::SUPD | O::SUPI => {
                         let old = read(&mut v, &mut cache, &key).unwrap_or(0) as u64;
                         let (off, len) = (r(d.c), if op == O::SUPD { r(d.d) } else { d.d as u64 });
                         let off = if off == u64::MAX { old } else { off };
                         if off > old || off.saturating_add(len) > (1 << 20) {
-                            return partial(v);
+                            { self.degraded.set(true); return partial(v) }
                         }
                         let new_len = old.max(off + len);
                         wr(&mut v, &mut cache, &key, new_len as usize);
-                        done(v)
+                        { stash(cache); done(v) }
                     }
                     _ => partial(v),
                 }
@@ -414,7 +457,13 @@ impl Monitor for GasMonitor {
         }
         let Some(op) = opcode_of(word) else { return };
         let d = dec(word);
+        self.pending.borrow_mut().clear();
+        self.pending_cid.set(None);
         if [d.a, d.b, d.c, d.d].iter().any(|x| *x == CGAS || *x == GGAS) && !matches!(op, O::CALL) {
+            if matches!(op, O::SRW | O::SRWQ | O::SWW | O::SWWQ | O::SCWQ | O::SCLR | O::SRDD | O::SRDI | O::SWRD | O::SWRI | O::SUPD | O::SUPI | O::SPLD) {
+                // the slots this instruction touches are not modelled: stop predicting hotness
+                self.degraded.set(true);
+            }
             return;
         }
         self.expect = self.stages(op, &d, pre, vm);
@@ -427,6 +476,13 @@ impl Monitor for GasMonitor {
         let opn = info.op.map(|o| format!("{o:?}")).unwrap_or_else(|| "?".into());
         if info.errored {
             return None;
+        }
+        if let Some(cid) = self.pending_cid.take() {
+            if info.completed() {
+                for (k, l) in self.pending.borrow_mut().drain(..) {
+                    self.touched.insert((cid, k), l);
+                }
+            }
         }
         // ---- invariants for every step ------------------------------------------------------
         if c1 > g1 {
